@@ -14,7 +14,7 @@ one() {
     p=${pr%%:*}; r=${pr##*:}
     out=$(JV_REPO="$w/repo" JV_CACHE="$w/cache" JV_OUT="$w/out" timeout 900 /verif/check $p 2>&1); rc=$?
     if [ $rc -eq 1 ] && echo "$out" | grep -A1 '^VIOLATION' | grep -q "$r "; then res="$res $pr:reported"
-    elif [ $rc -eq 1 ]; then res="$res $pr:OTHER-RULE[$(echo "$out" | grep -A1 '^VIOLATION' | grep -o 'C[0-9][0-9]-[A-Z]*' | sort -u | tr '\n' ',')]"
+    elif [ $rc -eq 1 ]; then res="$res $pr:OTHER-RULE[$(echo "$out" | grep -A1 '^VIOLATION' | grep -o 'C[0-9][0-9]-[A-Z0-9]*' | sort -u | tr '\n' ',')]"
     else res="$res $pr:MISSED(exit=$rc)"; fi
   done
   echo "$c$res"
